@@ -144,8 +144,9 @@ def reconcileFile (file : Bytes) (creators : List Record → List BlockOut → O
       | .panic => (.panic, none)
       | .err => (.fail, none)
       | .ok r => match r.makeResult with
-        | some (text, rec) => (.ok text, some rec)
-        | none => (.fail, none)
+        | .ok (text, rec) => (.ok text, some rec)
+        | .err => (.fail, none)
+        | .panic => (.panic, none)
 
 def optRes {α} : Option α → Res α
   | some a => .ok a
